@@ -27,6 +27,7 @@ EXPECTED_PROBES = ["c19-dumps-compared", "c19-loads-compared", "c19-dump-io-fail
                    "c19-snapshot-with-hibernating-deme", "c19-snapshot-with-qmc", "c19-snapshot-with-shade",
                    "c19-snapshot-with-local", "c19-lambda-objective", "c19-callable-objective", "c19-second-restart"]
 THOROUGH_PROBES = ["c19-enumerated-plans", "c19-enumerated-pairs"]
+EXPECTED_PROBES += ["c19-shadow-continuations-compared"]  # observation only
 ASSUMPTIONS = ["what a torn or truncated snapshot file loads as is not judged (the property promises nothing there)",
                "after a restart the global generators are re-seeded from the plan (a restarted process would be seeded afresh too)"]
 WALL_S = 90.0
@@ -54,6 +55,8 @@ def gen(seed, tier):
             crashes.append(c1 + P.loguniform_int(r, 1, 80))
         f["crash_at_consult"] = crashes
     pl["objective_form"] = r.choice(["closure", "lambda", "callable"])
+    if seed % 5 == 0:
+        pl["redirect_stdout"] = True
     for l in pl["levels"]:
         if l["engine"] == "cma" and l.get("sigma0") is None and seed % 2 == 0:
             l["sigma0_omitted"] = True  # CMALevelConfig(...) without the sigma0 argument
@@ -152,6 +155,7 @@ class C19Monitor(Monitor):
     def on_boundary(self, tree):
         w = self.w
         b = w.n_boundaries
+        self._compare_shadow(tree)
         if b in self.fail_at:
             before = self._observe(tree)
             rng = rng_state_digest()
@@ -215,6 +219,66 @@ class C19Monitor(Monitor):
             if t2 is tree or any(a is b_ for a, b_ in zip(all_demes(tree), all_demes(t2))):
                 self.violate("loaded-tree-shares-demes-with-live-tree", {})
             self.durable = before
+            self._shadow_step(tree, t2)
+
+    # ------------------------------------------------------------------ shadow continuation of the loaded copy
+    def _levels_digest(self, tree):
+        import hashlib
+
+        from ..sim import deme_digest_parts
+
+        h = hashlib.sha256()
+        h.update(repr(tree.metaepoch_count).encode())
+        for lv in tree.levels:
+            h.update(b"|")
+            for d in lv:
+                h.update(repr(deme_digest_parts(d)).encode())
+        return h.digest()
+
+    def _shadow_step(self, tree, t2):
+        """Observation (not a judgement, see _compare_shadow): the loaded copy is stepped once from the present state
+        of the global generators (detached from the simulator: nothing it does is recorded), the generators are put
+        back, and after the live tree's next metaepoch the two are compared."""
+        w = self.w
+        self.shadow = None
+        f = w.faults
+        if w.plan.get("nan_stratum") or f.get("lsc_inject") or f.get("stop_at_consult") is not None:
+            return  # injected verdicts live in the simulator and would not reach the detached copy
+        if self.last_verdict:
+            return  # the live run returns at this boundary
+        st = (np.random.get_state(), _random.getstate())
+        clock_now = w.clock.now
+        w.shadow = True
+        try:
+            t2.run_step()
+            self.shadow = {"digest": self._levels_digest(t2), "boundary": w.n_boundaries, "restarts": w.restarts}
+            w.probe("c19-shadow-continuations")
+        except Exception as e:
+            self.shadow = {"error": type(e).__name__, "boundary": w.n_boundaries, "restarts": w.restarts}
+        finally:
+            w.shadow = False
+            w.clock.now = clock_now
+            np.random.set_state(st[0])
+            _random.setstate(st[1])
+
+    def _compare_shadow(self, tree):
+        w = self.w
+        sh = getattr(self, "shadow", None)
+        if not sh or sh["boundary"] + 1 != w.n_boundaries or sh["restarts"] != w.restarts:
+            return
+        self.shadow = None
+        if "error" in sh:
+            w.probe("c19-shadow-step-raised")
+            return
+        w.probe("c19-shadow-continuations-compared")
+        if self._levels_digest(tree) != sh["digest"]:
+            # OBSERVATION ONLY.  C19 lists what "observationally identical" means (summary, structure, histories,
+            # fitness values, counts, flags, stop-condition verdict) and asks that the loaded tree can be run further
+            # and keeps the invariants; it does not promise that the copy continues like the original.  On the
+            # unchanged tree it does not for CMA-ES levels: the snapshot pickles `np.random.randn` together with
+            # its RandomState, so a restored CMA-ES deme draws from a private copy of the generator.
+            eng = "+".join(sorted({l["engine"] for l in w.plan["levels"]}))
+            w.probe("c19-continuation-differs-observed/" + ("with-cma" if "cma" in eng else "without-cma"))
 
     # ------------------------------------------------------------------ continued run after a restart
     def on_restart(self, tree):
